@@ -220,8 +220,13 @@ def ecprivatekey(d_bytes, curve_oid=None, point_bytes=None, version=1):
     return tlv(0x30, body)
 
 
-def pkcs8(ecpriv, curve_oid, version=1, alg=OID_ECPUB, tail=b""):
-    """RFC 5958: SEQUENCE { version, SEQUENCE { id-ecPublicKey, namedCurve }, OCTET STRING { ECPrivateKey }, ... }"""
+def pkcs8(ecpriv, curve_oid, version=None, alg=OID_ECPUB, tail=b""):
+    """RFC 5958: SEQUENCE { version, SEQUENCE { id-ecPublicKey, namedCurve }, OCTET STRING { ECPrivateKey }, ... }.
+    §2: "if publicKey is present, then version is set to v2 else version is set to v1": without an explicit `version` the
+    encoder writes v1 = 0 unless `tail` carries the top-level publicKey [1] (tag 0x81 / 0xA1), then v2 = 1."""
+    if version is None:
+        has_pub = any(t in (0x81, 0xA1) for (t, _) in read_all(tail)) if tail else False
+        version = 1 if has_pub else 0
     return tlv(0x30, enc_int(version) + tlv(0x30, enc_oid(alg) + enc_oid(curve_oid)) + tlv(4, ecpriv) + tail)
 
 
